@@ -191,6 +191,10 @@ def _pretransform(x, y):
     return x * 0.5 + 1, y - x
 
 
+def _pretransform3(x, y, z):
+    return z * 0.5 + 1, y - 0.5, x
+
+
 def _f_base(w, S):
     return {'empty': lambda: S.SubsetState()}
 
@@ -265,7 +269,10 @@ def _f_roi(w, S):
 def _f_roind(w, S):
     from glue.core.roi import RectangularROI
     N = S.RoiSubsetStateNd
-    out = {'rect.i.dv': lambda: N([w.ids['i'], w.ids['dv']], RectangularROI(0.5, 4.5, 1.0, 7.0))}
+    out = {'rect.i.dv': lambda: N([w.ids['i'], w.ids['dv']], RectangularROI(0.5, 4.5, 1.0, 7.0)),
+           # with a pretransform that matters (every field of a state has to survive a copy)
+           'rect.i.dv.pre': lambda: N([w.ids['i'], w.ids['dv']], RectangularROI(0.5, 4.5, 1.0, 7.0),
+                                      pretransform=_pretransform)}
     if w.nd >= 2:
         out['rect.pix'] = lambda: N([w.pix[-1], w.pix[-2]], RectangularROI(0.5, 2.5, -0.5, 0.5))
     return out
@@ -278,6 +285,9 @@ def _f_roi3d(w, S):
     ids = w.ids
     out = {'i.pix.i': lambda: T(ids['i'], w.pix[-1], ids['i'],
                                 Projected3dROI(RectangularROI(1.0, 6.1, 0.4, 3.1), proj))}
+    out['i.pix.i.pre'] = lambda: T(ids['i'], w.pix[-1], ids['i'],
+                                   Projected3dROI(RectangularROI(1.0, 6.1, 0.4, 3.1), proj),
+                                   pretransform=_pretransform3)
     if w.nd == 3:
         out['pix3'] = lambda: T(w.pix[2], w.pix[1], w.pix[0],
                                 Projected3dROI(RectangularROI(0.4, 2.6, -0.1, 1.1), proj))
